@@ -3,6 +3,7 @@ import Tuc.Model.FastLane
 import Tuc.Model.Stream
 import Tuc.Model.Lines
 import Tuc.Model.Chars
+import Tuc.Model.Args
 import Tuc.Spec.Record
 import Tuc.Spec.Lines
 /-!
@@ -216,6 +217,30 @@ def runSpec (kv : Kv) : String :=
     | "bytes" => renderRun (Spec.specBytes (Spec.cfgOf opt) input)
     | _ => "-"
 
+def widthOf (s : Option String) : Width :=
+  match s with
+  | some "one" => .one
+  | some "other" => .other
+  | _ => .absent
+
+def flagsOfKv (kv : Kv) : Flags :=
+  { mode := match kv.get? "mode" with
+      | some "f" => .f | some "c" => .c | some "b" => .b | some "l" => .l | _ => .dflt
+    d := widthOf (kv.get? "d")
+    e := kv.flag "e", g := kv.flag "g", p := kv.flag "p", s := kv.flag "s", z := kv.flag "z"
+    m := kv.flag "m", j := kv.flag "j", noJoin := kv.flag "nj", json := kv.flag "json"
+    r := widthOf (kv.get? "r"), t := kv.flag "t", fallback := kv.flag "fb"
+    mem := match kv.get? "M" with | some "zero" => .zero | some "pos" => .pos | _ => .absent
+    fmt := kv.flag "fmt", fwd := kv.flag "fwd", extra := kv.flag "extra" }
+
+def renderDecision : Decision → String
+  | .reject => "reject"
+  | .failFirst => "failFirst"
+  | .accept e j =>
+    let es := match e with
+      | .stream => "stream" | .bytes => "bytes" | .lines => "lines" | .fast => "fast" | .general => "general"
+    s!"accept {es} {if j then 1 else 0}"
+
 def ubFromKv (kv : Kv) : UserBounds :=
   { l := parseSideTok ((kv.get? "l").getD "_"), r := parseSideTok ((kv.get? "r").getD "_"),
     isLast := false, fallback := kv.optBytes "fb" }
@@ -256,6 +281,7 @@ def runCase (line : String) : String :=
         | .fail => "fail"
         | .panic => "panic"
     | "cut" => runCut kv
+    | "decide" => renderDecision (decision (flagsOfKv kv))
     | _ => "badcase"
 
 partial def loop (i o : IO.FS.Stream) : IO Unit := do
